@@ -126,7 +126,9 @@ def cases(rng, tier):
 		size = rng.choice((2, 9, 64, 300, 4096))
 		a, b = rng.randrange(0, size + 3), rng.randrange(0, size + 120)
 		v = rng.choice(('bytes=%d-%d' % (a, b), 'bytes=%d-%d' % (min(a, b), max(a, b)), 'bytes=%d-' % a, 'bytes=-%d' % b, 'bytes=0-%d' % (size - 1), 'bytes=0-0,%d-%d' % (size // 2, size + 5), 'bytes=1-2,4-6'))
-		yield ('rng', size, v, rng.choice(('bytes', 'text', 'bytesio', 'file')), rng.choice((('prepare', 'compose'), ('prepare', 'prepare', 'compose'), ('prepare', 'compose', 'prepare', 'compose'))))
+		# what the application did before prepare(): nothing; offered ranges itself; switched chunked on; set a content coding; only a Last-Modified; a stale Content-Length
+		opt = rng.choice((0, 0, 0, 1, 2, 3, 4, 5, 6))
+		yield ('rng', size, v, rng.choice(('bytes', 'text', 'bytesio', 'file')), rng.choice((('prepare', 'compose'), ('prepare', 'prepare', 'compose'), ('prepare', 'compose', 'prepare', 'compose'))), opt)
 
 
 def search(rng, res):
@@ -184,7 +186,8 @@ def opstr(ops):
 def build_range(case):
 	from httoop import Request, Response
 	from httoop.semantic.response import ComposedResponse
-	_, size, v, source, ops = case
+	_, size, v, source, ops = case[:5]
+	opt = case[5] if len(case) > 5 else 0
 	data = bytes((i * 5 + 1) % 251 for i in range(size)) if source != 'text' else (b'0123456789' * (size // 10 + 1))[:size]
 	b = cu.Built()
 	b.keep = []
@@ -194,6 +197,19 @@ def build_range(case):
 	resp.body = cu.make_source(source, (data,), b.keep)
 	resp.headers['ETag'] = '"v1"'
 	b.message, b.request, b.composer = resp, req, ComposedResponse(resp, req)
+	if opt in (1, 2, 3):
+		resp.headers['Accept-Ranges'] = 'bytes'
+	if opt == 2:
+		b.composer.chunked = True
+	elif opt == 3:
+		resp.headers['Content-Encoding'] = 'gzip'
+	elif opt == 4:
+		del resp.headers['ETag']
+		resp.headers['Last-Modified'] = 'Sun, 06 Nov 1994 08:49:37 GMT'
+	elif opt == 5:
+		resp.headers['Content-Length'] = str(size + 8)
+	elif opt == 6:
+		resp.headers['Transfer-Encoding'] = 'chunked'
 	return b
 
 
@@ -320,7 +336,7 @@ def oracle(case):
 
 def nontrivial(case, outs):
 	if case[0] == 'rng':
-		return ('rng', case[1], case[3], case[2].count(','), len(case[4]))
+		return ('rng', case[1], case[3], case[2].count(','), len(case[4]), case[5:])
 	spec = case[1]
 	n = len(b''.join(spec[7]))
 	return (spec[0], spec[1] if spec[0] == 'request' else spec[3], spec[6], 0 if n == 0 else 1 if n < 4096 else 2, spec[8], spec[9], spec[4], case[2])
@@ -340,14 +356,14 @@ def tally(case, res):
 
 def describe(case):
 	if case[0] == 'rng':
-		return ['rng', case[1], case[2], case[3], list(case[4])]
+		return ['rng', case[1], case[2], case[3], list(case[4])] + list(case[5:])
 	spec = case[1]
 	return ['c', [spec[0], spec[1], spec[2], spec[3], list(spec[4]), [list(f) for f in spec[5]], spec[6], [p.hex() for p in spec[7]], spec[8], spec[9], spec[10], list(spec[11])], list(case[2])]
 
 
 def undescribe(d):
 	if d[0] == 'rng':
-		return ('rng', d[1], d[2], d[3], tuple(d[4]))
+		return ('rng', d[1], d[2], d[3], tuple(d[4])) + tuple(d[5:])
 	s = d[1]
 	return ('c', (s[0], s[1], s[2], s[3], tuple(s[4]), tuple(tuple(f) for f in s[5]), s[6], tuple(bytes.fromhex(p) for p in s[7]), s[8], s[9], s[10], tuple(s[11])), tuple(d[2]))
 
